@@ -2,8 +2,8 @@
 //
 // System: a fresh regnet-style node (pure PoW era, CoinbaseMaturity 1) with a fixed prefix of 4
 // coinbase-only blocks, three harness addresses (A = foundation, M = miner, C = carol) and a menu
-// of 8 signed transfers that pairwise share outpoints of the matured coinbases of blocks 1 and 2
-// (or of each other). Operations (per state, canonical order):
+// of 12 signed transfers that pairwise share outpoints of the matured coinbases of blocks 1 and 2
+// (or of each other; 8-11 vary the input Sequence and the input order). Operations (per state, canonical order):
 //
 //	sub:i          TxPool.AppendToTxPool(menu[i])
 //	mine:S         build the next block on the tip holding exactly S (no miner filtering) and
@@ -69,7 +69,9 @@ type alphabet struct {
 // The declared space is the union, over the families of the tier, of all operation sequences of
 // length <= Depth over the family's alphabet ("wide": pool offers x tip blocks x side chains;
 // "reorg": the operations that build competing branches, deeper; "orphan": out-of-order delivery
-// through hold / child / deliver).
+// through hold / child / deliver; "inputs": transfers whose inputs name an outpoint under a
+// different Sequence, twice in one transaction, or after an unspent input of the same
+// transaction).
 func familiesFor(tier string) (fams []alphabet, budgetS int) {
 	if tier == "thorough" {
 		return []alphabet{
@@ -80,6 +82,9 @@ func familiesFor(tier string) (fams []alphabet, budgetS int) {
 			{Name: "reorg", Subs: []int{0, 1, 5},
 				Mine:  []string{"-", "pool", "1", "0+1"},
 				ForkK: []int{1}, Fork: []string{"-", "1"}, Ext: []string{"-", "1"}, Depth: 7},
+			{Name: "inputs", Subs: []int{0, 3, 8, 9, 10, 11},
+				Mine:  []string{"-", "pool", "0", "1", "3", "8", "9", "10", "11", "0+8", "1+8", "1+10", "3+11", "8+10"},
+				ForkK: []int{1}, Fork: []string{"-", "8"}, Ext: []string{"-"}, Depth: 4},
 		}, 1700
 	}
 	return []alphabet{
@@ -92,6 +97,8 @@ func familiesFor(tier string) (fams []alphabet, budgetS int) {
 		{Name: "orphan", Subs: []int{0, 3},
 			Mine: []string{"-", "pool", "3+4"},
 			Hold: []string{"-", "0"}, Child: []string{"-", "5"}, Depth: 4},
+		{Name: "inputs", Subs: []int{8, 10, 11},
+			Mine: []string{"1", "3", "8", "9", "10", "11", "0+8", "1+10"}, Depth: 3},
 	}, 85
 }
 
@@ -184,6 +191,16 @@ func newWorld(al *alphabet) *world {
 			chainkit.SignedTransfer(C, []common2.OutPoint{op(t0, 0)}, []chainkit.Out{{To: A, Value: v(t0, 0) - fee}}, 5),
 			chainkit.SignedTransfer(C, []common2.OutPoint{op(t0, 0)}, []chainkit.Out{{To: M, Value: v(t0, 0) - fee}}, 6),
 			chainkit.SignedTransfer(A, []common2.OutPoint{op(cb1, 2)}, []chainkit.Out{{To: M, Value: v(cb1, 2) - fee}}, 7),
+			// 8: the outpoint of t0/t1 again, under a different input Sequence
+			chainkit.SignedTransferInputs(A, []common2.Input{{Previous: op(cb1, 0), Sequence: 1}}, []chainkit.Out{{To: C, Value: v(cb1, 0) - fee}}, 8),
+			// 9: one transaction naming the same outpoint twice under different Sequences
+			chainkit.SignedTransferInputs(A, []common2.Input{{Previous: op(cb1, 0), Sequence: 0}, {Previous: op(cb1, 0), Sequence: 1}}, []chainkit.Out{{To: C, Value: 2*v(cb1, 0) - fee}}, 9),
+			// 10: two inputs, the one t0/t1/t8 also spend LAST (t2 has it first); coinbase 1 keeps
+			// its output 1 unspent, so its unspent-index entry survives either way
+			chainkit.SignedTransfer(A, []common2.OutPoint{op(cb1, 2), op(cb1, 0)}, []chainkit.Out{{To: C, Value: v(cb1, 0) + v(cb1, 2) - fee}}, 10),
+			// 11: the same shape over the miner's coins: unspent coinbase-1 output first, then the
+			// outpoint t3/t4 spend
+			chainkit.SignedTransfer(M, []common2.OutPoint{op(cb1, 1), op(cb2, 1)}, []chainkit.Out{{To: C, Value: v(cb1, 1) + v(cb2, 1) - fee}}, 11),
 		}
 	}
 	w.menu = menuOnce
@@ -993,7 +1010,7 @@ func main() {
 			"pool_submissions_accepted":           total.PoolAccepted,
 			"orphans_accepted":                    total.Orphans,
 		},
-		"rule":    "for every family (alphabet + depth, see families): breadth-first search over all operation sequences up to the depth on a fresh chainkit node (pure PoW era, CoinbaseMaturity 1, 4-block prefix, 8-transfer menu sharing outpoints of coinbases 1 and 2 and of each other); one fresh-node replay per transition in worker processes, global digest memo; state digest = active chain hashes + unspent index of all factory transactions + pool hashes + node-known side/orphan blocks of the path + harness selectors (lastSide, held); oracles after every operation: active-chain replay in maps (no outpoint spent twice, every spend refers to an earlier-created output), GetUnspent == replay for every known transaction, pool conflict-free and disjoint from chain-spent outpoints after the node's event-driven cleanup, tip blocks that double-spend on their own chain rejected; states counted per family (a state reached in two families is counted twice)",
+		"rule":    "for every family (alphabet + depth, see families): breadth-first search over all operation sequences up to the depth on a fresh chainkit node (pure PoW era, CoinbaseMaturity 1, 4-block prefix, 12-transfer menu sharing outpoints of coinbases 1 and 2 and of each other, some under different input Sequences / input orders); one fresh-node replay per transition in worker processes, global digest memo; state digest = active chain hashes + unspent index of all factory transactions + pool hashes + node-known side/orphan blocks of the path + harness selectors (lastSide, held); oracles after every operation: active-chain replay in maps (no outpoint spent twice, every spend refers to an earlier-created output), GetUnspent == replay for every known transaction, pool conflict-free and disjoint from chain-spent outpoints after the node's event-driven cleanup, tip blocks that double-spend on their own chain rejected; states counted per family (a state reached in two families is counted twice)",
 		"samples": samples,
 	}
 	r.Assume = append(r.Assume,
